@@ -425,11 +425,11 @@ func (c *Ctx) rangeOf(t types.Type, s string, alloc string) string {
 			return sAnd(sLe(lo, s), sLe(s, hi))
 		}
 		if u.Info()&types.IsString != 0 {
-			return sAnd(sLe("0", sx("soff", s)), sLe("0", sx("slen", s)), sLe(sx("slen", s), "4611686018427387904"), sLe(sx("soff", s), "4611686018427387904"))
+			return sAnd(sLe("0", sx("soff", s)), sLe("0", sx("slen", s)), sLe(sx("slen", s), "281474976710656"), sLe(sx("soff", s), "281474976710656"))
 		}
 	case *types.Slice:
 		return sAnd(sLe("0", sx("sref", s)), sLe("0", sx("sloff", s)), sLe("0", sx("sllen", s)), sLe(sx("sllen", s), sx("slcap", s)),
-			sLe(sx("slcap", s), "4611686018427387904"), sLe(sx("sloff", s), "4611686018427387904"),
+			sLe(sx("slcap", s), "281474976710656"), sLe(sx("sloff", s), "281474976710656"),
 			sImp(sEq(sx("sref", s), "0"), sEq(sx("slcap", s), "0")), sLe(sx("sref", s), alloc))
 	case *types.Pointer, *types.Map, *types.Chan, *types.Signature:
 		return sAnd(sLe("0", s), sLe(s, alloc))
